@@ -163,6 +163,10 @@ class MinPathCoverCycles(walkmodel.AbstractWalkModelDiGraph):
 
             if model.is_solved():
                 self._solution = model.get_solution()
+                if self.cover_type == "node":
+                    # Convert the solution walks from the expanded graph to walks in the original graph.
+                    self._solution["_walks_internal"] = self._solution["walks"]
+                    self._solution["walks"] = self.G_internal.get_condensed_paths(self._solution["walks"])
                 self.set_solved()
                 self.solve_statistics = model.solve_statistics
                 self.solve_statistics["mpc_solve_time"] = time.perf_counter() - self.solve_time_start
